@@ -1,0 +1,270 @@
+// Copyright 2020-2025 Buf Technologies, Inc.
+//
+// Licensed under the Apache License, Version 2.0 (the "License");
+// you may not use this file except in compliance with the License.
+// You may obtain a copy of the License at
+//
+//      http://www.apache.org/licenses/LICENSE-2.0
+//
+// Unless required by applicable law or agreed to in writing, software
+// distributed under the License is distributed on an "AS IS" BASIS,
+// WITHOUT WARRANTIES OR CONDITIONS OF ANY KIND, either express or implied.
+// See the License for the specific language governing permissions and
+// limitations under the License.
+
+//go:build verif
+
+package bufcas
+
+// Contracts for the gocv verifier (ca-r4b): digests, blobs, blob sets, manifests and file sets. Comment-only.
+//
+// The two name tables of digest.go. The clauses that depend on them carry rb_casTables() as hypothesis.
+//@ table rb_digestTypeToString {C08} of digestTypeToString
+//@   ensures exactly-shake256: (forall t DigestType :: t in digestTypeToString ==> t == DigestTypeShake256) && DigestTypeShake256 in digestTypeToString && digestTypeToString[DigestTypeShake256] == "shake256"
+//@ table rb_stringToDigestType {C08} of stringToDigestType
+//@   ensures exactly-shake256: (forall k string :: k in stringToDigestType ==> k == "shake256") && "shake256" in stringToDigestType && stringToDigestType["shake256"] == DigestTypeShake256
+//
+// DigestType.String / ParseDigestType: the only known type is shake256 <-> "shake256"; parsing reverses printing.
+//@ pure func (d DigestType) String() (r)
+//@   property C08
+//@   ensures known: d in digestTypeToString ==> r == digestTypeToString[d]
+//@   ensures unknown-is-decimal: !(d in digestTypeToString) ==> r == decimal(d)
+//
+//@ func ParseDigestType(s) (r, err)
+//@   property C08
+//@   ensures known: s in stringToDigestType ==> err == nil && r == stringToDigestType[s]
+//@   ensures unknown-rejected: !(s in stringToDigestType) ==> err != nil && r == 0
+//@   ensures round-trip: rb_casTables(0) ==> (forall t DigestType :: t in digestTypeToString && s == t.String() ==> err == nil && r == t)
+//@   ensures only-shake256: rb_casTables(0) ==> ((err == nil) <==> s == "shake256") && (err == nil ==> r == DigestTypeShake256)
+//
+// A digest is "<type>:<lowercase hex of the value>"; newDigest builds exactly that, keeps type and value.
+//@ func newDigest(digestType, value) (r)
+//@   property C08
+//@   ensures fields: r != nil && r.digestType == digestType && r.value == value
+//@   ensures string-form: r.stringValue == digestType.String() + ":" + hex.EncodeToString(value)
+//@   ensures fresh: !old(allocated(r)) && allocated(r)
+//
+//@ pure func (d *digest) Type() (r)
+//@   property C08
+//@   ensures r == d.digestType
+//@ pure func (d *digest) Value() (r)
+//@   property C08
+//@   ensures r == d.value
+//@ pure func (d *digest) String() (r)
+//@   property C08
+//@   ensures r == d.stringValue
+//
+// Only shake256 with a 64-byte value is a valid digest.
+//@ func validateDigestParameters(digestType, value) (err)
+//@   property C08
+//@   ensures valid-accepted: digestType == DigestTypeShake256 && len(value) == 64 ==> err == nil
+//@   ensures invalid-rejected: err == nil ==> digestType == DigestTypeShake256 && len(value) == 64
+//
+// NewDigest (default type): exactly the 64-byte values are accepted, and the digest carries exactly that value.
+//@ inline func newDigestOptions
+//@ func NewDigest(value, options) (r, err)
+//@   property C08
+//@   modifies heap digestOptions.digestType
+//@   calls option modifies heap digestOptions.digestType
+//@   ensures no-options-length-checked: len(options) == 0 ==> ((err == nil) <==> len(value) == 64)
+//@   ensures no-options-value-kept: len(options) == 0 && err == nil ==> r != nil && cast(*digest, r).digestType == DigestTypeShake256 && cast(*digest, r).value == value && cast(*digest, r).stringValue == DigestTypeShake256.String() + ":" + hex.EncodeToString(value)
+//@   ensures wrong-length-rejected: len(value) != 64 ==> err != nil
+//@   ensures error-yields-nil: err != nil ==> r == nil
+//@   ensures success-is-shake256: err == nil ==> r != nil && cast(*digest, r).digestType == DigestTypeShake256 && cast(*digest, r).value == value
+//@   loop 0 invariant digestOptions != nil
+//@   loop 0 invariant len(options) == 0 ==> digestOptions.digestType == 0
+//
+// DigestEqual (verified against its body; was assumed): equal digests have the same type and the same value bytes; a nil
+// digest equals only a nil digest.
+//@ pure func DigestEqual(a, b) (r)
+//@   property C08
+//@   ensures nil-only-equals-nil: (a == nil) != (b == nil) ==> !r
+//@   ensures both-nil: a == nil && b == nil ==> r
+//@   ensures same-type: r && a != nil ==> a.Type() == b.Type()
+//@   ensures same-value: r && a != nil ==> bytes.Equal(a.Value(), b.Value())
+//@   ensures complete: a != nil && b != nil && a.Type() == b.Type() && bytes.Equal(a.Value(), b.Value()) ==> r
+//
+// ---- blob.go: a blob is content together with the digest computed from it
+//@ trusted pure interface Blob
+//@ func newBlob(digest, content) (r)
+//@   property C08
+//@   ensures fields: r != nil && r.digest == digest && r.content == content
+//@   ensures fresh: !old(allocated(r)) && allocated(r)
+//@ pure func (b *blob) Digest() (r)
+//@   property C08
+//@   ensures r == b.digest
+//@ pure func (b *blob) Content() (r)
+//@   property C08
+//@   ensures r == b.content
+//
+// BlobWithKnownDigest: the option (closure 0) records exactly the known digest and touches nothing else.
+//@ func BlobWithKnownDigest(knownDigest) (r)
+//@   property C08
+//@   ensures r != nil
+//@   closure 0 ensures records-known-digest: blobOptions.knownDigest == knownDigest && blobOptions.digestType == old(blobOptions.digestType)
+//@ func BlobWithDigestType(digestType) (r)
+//@   property C08
+//@   ensures r != nil
+//@   closure 0 ensures records-digest-type: blobOptions.digestType == digestType && blobOptions.knownDigest == old(blobOptions.knownDigest)
+//
+// NewBlobForContent: the blob's digest is the one computed while reading the content (the reader is teed into the
+// buffer whose bytes become the content); a failing digest computation is reported and yields no blob; when a known
+// digest was requested, a blob is returned ONLY if its digest equals the known one - a mismatch is an error, never a blob.
+//@ inline func newBlobOptions
+//@ func NewBlobForContent(reader, options) (r, err)
+//@   property C08
+//@   modifies heap, ghost.buf
+//@   calls option modifies heap blobOptions.knownDigest, heap blobOptions.digestType
+//@   ensures blob-or-error: (err == nil) <==> (r != nil)
+//@   ensures has-digest: err == nil ==> cast(*blob, r).digest != nil
+//@   assert before "blob := newBlob(digest, buffer.Bytes())" digest-computed: err == nil && digest != nil
+//@   assert before "return blob, nil" digest-of-the-read-content: blob.digest == digest
+//@   assert before "return blob, nil" known-digest-matches: blobOptions.knownDigest == nil || DigestEqual(blob.digest, blobOptions.knownDigest)
+//@   assert before "return nil, fmt.Errorf(\"Digest %v did not match" mismatch-only: blobOptions.knownDigest != nil && !DigestEqual(blob.digest, blobOptions.knownDigest)
+//@   loop 0 invariant blobOptions != nil
+//
+// ---- blob_set.go: a blob set is a function of the SET of digests of its blobs: one blob per digest (the first one
+// given), listed in strictly increasing digest-string order (so the order of the input does not matter).
+//@ func newBlobSet(blobs) (r, err)
+//@   property C08
+//@   ensures never-fails: err == nil && r != nil
+//@   ensures strictly-sorted-by-digest: forall a int, b int :: 0 <= a && a < b && b < len(r.sortedDigestStrings) ==> r.sortedDigestStrings[a] < r.sortedDigestStrings[b]
+//@   ensures every-blob-digest-present: forall j int :: 0 <= j && j < len(blobs) ==> blobs[j].Digest().String() in r.digestStringToBlob
+//@   ensures keyed-by-own-digest: forall k string :: k in r.digestStringToBlob ==> r.digestStringToBlob[k].Digest().String() == k && (exists j int :: 0 <= j && j < len(blobs) && blobs[j] == r.digestStringToBlob[k])
+//@   ensures first-blob-wins: forall j int :: 0 <= j && j < len(blobs) ==> (exists i int :: 0 <= i && i <= j && blobs[i] == r.digestStringToBlob[blobs[j].Digest().String()])
+//@   ensures listed-are-keys: forall a int :: 0 <= a && a < len(r.sortedDigestStrings) ==> r.sortedDigestStrings[a] in r.digestStringToBlob
+//@   ensures keys-are-listed: forall k string :: k in r.digestStringToBlob ==> (exists a int :: 0 <= a && a < len(r.sortedDigestStrings) && r.sortedDigestStrings[a] == k)
+//@   loop 0 invariant digestStringToBlob != nil
+//@   loop 0 invariant forall j int :: 0 <= j && j < $i ==> blobs[j].Digest().String() in digestStringToBlob
+//@   loop 0 invariant forall k string :: k in digestStringToBlob ==> digestStringToBlob[k].Digest().String() == k && (exists j int :: 0 <= j && j < $i && blobs[j] == digestStringToBlob[k])
+//@   loop 0 invariant forall j int :: 0 <= j && j < $i ==> (exists i int :: 0 <= i && i <= j && blobs[i] == digestStringToBlob[blobs[j].Digest().String()])
+//@   loop 0 invariant forall a int :: 0 <= a && a < len(sortedDigestStrings) ==> sortedDigestStrings[a] in digestStringToBlob
+//@   loop 0 invariant forall k string :: k in digestStringToBlob ==> (exists a int :: 0 <= a && a < len(sortedDigestStrings) && sortedDigestStrings[a] == k)
+//@   loop 0 invariant forall a int, b int :: 0 <= a && a < b && b < len(sortedDigestStrings) ==> sortedDigestStrings[a] != sortedDigestStrings[b]
+//
+//@ func NewBlobSet(blobs) (r, err)
+//@   property C08
+//@   modifies heap
+//@   ensures never-fails: err == nil && r != nil
+//@   ensures strictly-sorted-by-digest: forall a int, b int :: 0 <= a && a < b && b < len(cast(*blobSet, r).sortedDigestStrings) ==> cast(*blobSet, r).sortedDigestStrings[a] < cast(*blobSet, r).sortedDigestStrings[b]
+//@   ensures every-blob-digest-present: forall j int :: 0 <= j && j < len(blobs) ==> blobs[j].Digest().String() in cast(*blobSet, r).digestStringToBlob
+//@   ensures keyed-by-own-digest: forall k string :: k in cast(*blobSet, r).digestStringToBlob ==> cast(*blobSet, r).digestStringToBlob[k].Digest().String() == k && (exists j int :: 0 <= j && j < len(blobs) && blobs[j] == cast(*blobSet, r).digestStringToBlob[k])
+//@   ensures listed-are-keys: forall a int :: 0 <= a && a < len(cast(*blobSet, r).sortedDigestStrings) ==> cast(*blobSet, r).sortedDigestStrings[a] in cast(*blobSet, r).digestStringToBlob
+//@   ensures keys-are-listed: forall k string :: k in cast(*blobSet, r).digestStringToBlob ==> (exists a int :: 0 <= a && a < len(cast(*blobSet, r).sortedDigestStrings) && cast(*blobSet, r).sortedDigestStrings[a] == k)
+//
+// GetBlob: the blob stored under the digest's string, nil when there is none; a found blob has that digest string.
+//@ func (b *blobSet) GetBlob(digest) (r)
+//@   property C08
+//@   requires digest != nil
+//@   ensures lookup-by-digest-string: r == ite(digest.String() in b.digestStringToBlob, b.digestStringToBlob[digest.String()], nil)
+//
+// Blobs: one blob per listed digest string, in list order.
+//@ func (b *blobSet) Blobs() (r)
+//@   property C08
+//@   ensures in-digest-order: len(r) == len(b.sortedDigestStrings) && (forall a int :: 0 <= a && a < len(r) ==> r[a] == ite(b.sortedDigestStrings[a] in b.digestStringToBlob, b.digestStringToBlob[b.sortedDigestStrings[a]], nil))
+//@   loop 0 invariant len(blobs) == $i && (forall a int :: 0 <= a && a < $i ==> blobs[a] == ite(b.sortedDigestStrings[a] in b.digestStringToBlob, b.digestStringToBlob[b.sortedDigestStrings[a]], nil))
+//
+// ---- manifest.go: lookups and the blob round trip
+//@ trusted pure interface Manifest
+//@ pure func (m *manifest) FileNodes() (r)
+//@   property C08
+//@   ensures r == m.sortedUniqueFileNodes
+// GetFileNode: the node recorded for exactly this path, nil when the path is not in the manifest.
+//@ func (m *manifest) GetFileNode(path) (r)
+//@   property C08
+//@   ensures lookup-by-path: r == ite(path in m.pathToFileNode, m.pathToFileNode[path], nil)
+// GetDigest: the digest of the node of exactly this path, nil when the path is not in the manifest.
+//@ func (m *manifest) GetDigest(path) (r)
+//@   property C08
+//@   ensures absent-is-nil: !(path in m.pathToFileNode) || m.pathToFileNode[path] == nil ==> r == nil
+//@   ensures digest-of-that-node: path in m.pathToFileNode && m.pathToFileNode[path] != nil ==> r == m.pathToFileNode[path].Digest()
+//
+// ManifestToBlob: the blob is made from exactly the canonical text of the manifest (strings.NewReader over String());
+// BlobToManifest parses exactly the blob's content (so the pair is String/ParseManifest, whose round trip is C08 above).
+//@ func ManifestToBlob(manifest) (r, err)
+//@   property C08
+//@   modifies heap, ghost.buf
+//@   requires manifest != nil
+//@   ensures blob-or-error: (err == nil) <==> (r != nil)
+//@ func BlobToManifest(blob) (r, err)
+//@   property C08
+//@   modifies heap
+//@   requires blob != nil
+// (ParseManifest is not a pure function in the model, so its clauses are restated for the text of the blob's content)
+//@   ensures trailing-newline-required: len(bstr(blob.Content())) > 0 && !hasSuffix(bstr(blob.Content()), "\n") ==> err != nil
+//@   ensures empty-manifest-valid: bstr(blob.Content()) == "" ==> err == nil && r != nil && len(cast(*manifest, r).sortedUniqueFileNodes) == 0
+//@   ensures sorted-by-path: err == nil ==> r != nil && (forall a int, b int :: 0 <= a && a < b && b < len(cast(*manifest, r).sortedUniqueFileNodes) ==> cast(*manifest, r).sortedUniqueFileNodes[a].Path() < cast(*manifest, r).sortedUniqueFileNodes[b].Path())
+//@   ensures every-line-has-its-node: err == nil && bstr(blob.Content()) != "" ==> (forall i int, d string, p string :: 0 <= i && i < len(strings.Split(substr(bstr(blob.Content()), 0, len(bstr(blob.Content())) - 1), "\n")) && strings.Split(substr(bstr(blob.Content()), 0, len(bstr(blob.Content())) - 1), "\n")[i] == d + "  " + p && canonicalDigest(d) && !contains(d, " ") && p != "" && validRel(p) && Normalize(p) == p ==> (exists a int :: 0 <= a && a < len(cast(*manifest, r).sortedUniqueFileNodes) && cast(*fileNode, cast(*manifest, r).sortedUniqueFileNodes[a]).path == p && cast(*fileNode, cast(*manifest, r).sortedUniqueFileNodes[a]).digest.String() == d))
+//
+// ---- file_set.go (C08): a file set pairs a manifest with EXACTLY the blobs its nodes refer to: a node digest without a
+// blob and a blob no node refers to are both errors, and nothing else is.
+//@ trusted pure interface BlobSet
+//@ trusted pure interface FileSet
+//@ func newFileSet(manifest, blobSet) (r)
+//@   property C08
+//@   ensures fields: r != nil && r.manifest == manifest && r.blobSet == blobSet
+//@ pure func (f *fileSet) Manifest() (r)
+//@   property C08
+//@   ensures r == f.manifest
+//@ pure func (f *fileSet) BlobSet() (r)
+//@   property C08
+//@   ensures r == f.blobSet
+//
+//@ func NewFileSet(manifest, blobSet) (r, err)
+//@   property C08
+//@   modifies heap
+//@   ensures every-node-has-a-blob: err == nil ==> (forall i int :: 0 <= i && i < len(manifest.FileNodes()) ==> (exists j int :: 0 <= j && j < len(blobSet.Blobs()) && blobSet.Blobs()[j].Digest().String() == manifest.FileNodes()[i].Digest().String()))
+//@   ensures every-blob-is-referenced: err == nil ==> (forall j int :: 0 <= j && j < len(blobSet.Blobs()) ==> (exists i int :: 0 <= i && i < len(manifest.FileNodes()) && blobSet.Blobs()[j].Digest().String() == manifest.FileNodes()[i].Digest().String()))
+//@   ensures exact-match-accepted: (forall i int :: 0 <= i && i < len(manifest.FileNodes()) ==> (exists j int :: 0 <= j && j < len(blobSet.Blobs()) && blobSet.Blobs()[j].Digest().String() == manifest.FileNodes()[i].Digest().String())) && (forall j int :: 0 <= j && j < len(blobSet.Blobs()) ==> (exists i int :: 0 <= i && i < len(manifest.FileNodes()) && blobSet.Blobs()[j].Digest().String() == manifest.FileNodes()[i].Digest().String())) ==> err == nil
+//@   ensures pairs-exactly-these: err == nil ==> r != nil && cast(*fileSet, r).manifest == manifest && cast(*fileSet, r).blobSet == blobSet
+//@   ensures error-yields-nil: err != nil ==> r == nil
+//@   loop 0 invariant manifestDigestStringMap != nil && blobDigestStringMap != nil
+//@   loop 0 invariant forall k string :: (k in manifestDigestStringMap) <==> (exists i int :: 0 <= i && i < $i && manifest.FileNodes()[i].Digest().String() == k)
+//@   loop 1 invariant forall k string :: (k in blobDigestStringMap) <==> (exists j int :: 0 <= j && j < $i && blobSet.Blobs()[j].Digest().String() == k)
+//@   loop 2 invariant forall k string :: k in $visited && !(k in blobDigestStringMap) ==> len(onlyInManifest) > 0
+//@   loop 2 invariant len(onlyInManifest) > 0 ==> (exists k string :: k in manifestDigestStringMap && !(k in blobDigestStringMap))
+//@   loop 3 invariant forall k string :: k in $visited && !(k in manifestDigestStringMap) ==> len(onlyInBlobSet) > 0
+//@   loop 3 invariant len(onlyInBlobSet) > 0 ==> (exists k string :: k in blobDigestStringMap && !(k in manifestDigestStringMap))
+//
+// PutFileSetToBucket (C15): every failing Put / Write / Close is reported; (C08) on success every manifest node was put,
+// at exactly its manifest path, on exactly the given bucket, atomically, and the bytes written for a node are the
+// content of the blob the blob set holds for that node's digest; nothing else is touched.
+//@ func PutFileSetToBucket(ctx, fileSet, bucket) (err)
+//@   property C15 C08
+//@   modifies ghost.fail, ghost.wfail, ghost.sinkPaths, ghost.sinkBuckets, ghost.lastPutOptions
+//@   ensures reported: ghost.fail && !old(ghost.fail) ==> err != nil
+//@   ensures write-reported: ghost.wfail && !old(ghost.wfail) ==> err != nil
+//@   ensures every-node-put: err == nil ==> (forall i int :: 0 <= i && i < len(fileSet.Manifest().FileNodes()) ==> fileSet.Manifest().FileNodes()[i].Path() in ghost.sinkPaths)
+//@   ensures only-manifest-paths: forall q string :: q in ghost.sinkPaths && !(q in old(ghost.sinkPaths)) ==> (exists i int :: 0 <= i && i < len(fileSet.Manifest().FileNodes()) && fileSet.Manifest().FileNodes()[i].Path() == q)
+//@   ensures only-this-bucket: forall b ref :: b in ghost.sinkBuckets && !(b in old(ghost.sinkBuckets)) ==> b == bucket
+//@   ensures puts-are-atomic: err == nil && len(fileSet.Manifest().FileNodes()) > 0 ==> len(ghost.lastPutOptions) == 1 && ghost.lastPutOptions[0] == storage.PutWithAtomic()
+//@   ensures nothing-to-put-nothing-done: len(fileSet.Manifest().FileNodes()) == 0 ==> err == nil && ghost.sinkPaths == old(ghost.sinkPaths) && ghost.sinkBuckets == old(ghost.sinkBuckets)
+//@   assert before "if _, err := writeObjectCloser.Write(blob.Content())" content-of-the-nodes-blob: blob == fileSet.BlobSet().GetBlob(fileNode.Digest())
+//@   loop 0 invariant ghost.fail ==> old(ghost.fail)
+//@   loop 0 invariant ghost.wfail ==> old(ghost.wfail)
+//@   loop 0 invariant forall j int :: 0 <= j && j < $i ==> fileSet.Manifest().FileNodes()[j].Path() in ghost.sinkPaths
+//@   loop 0 invariant forall q string :: q in ghost.sinkPaths && !(q in old(ghost.sinkPaths)) ==> (exists j int :: 0 <= j && j < $i && fileSet.Manifest().FileNodes()[j].Path() == q)
+//@   loop 0 invariant forall b ref :: b in ghost.sinkBuckets && !(b in old(ghost.sinkBuckets)) ==> b == bucket
+//@   loop 0 invariant $i > 0 ==> len(ghost.lastPutOptions) == 1 && ghost.lastPutOptions[0] == storage.PutWithAtomic()
+//@   loop 0 invariant $i == 0 ==> ghost.sinkPaths == old(ghost.sinkPaths) && ghost.sinkBuckets == old(ghost.sinkBuckets)
+//@   canary ensures err == nil
+//
+// NewFileSetForBucket: every object the walk reaches contributes exactly one blob (of its content) and one file node
+// carrying the object's own path and that blob's digest; a failing blob / node construction is reported and adds
+// nothing; the manifest and the blob set are built from exactly these, so they match by construction.
+//@ func NewFileSetForBucket(ctx, bucket) (r, err)
+//@   property C08
+//@   modifies heap, ghost.fail, ghost.wfail, ghost.sinkPaths, ghost.sinkBuckets, ghost.lastPutOptions, ghost.buf
+//@   ensures set-or-error: (err == nil) <==> (r != nil)
+//@   closure 0 ensures one-node-and-blob-per-object: err == nil ==> len(fileNodes) == old(len(fileNodes)) + 1 && len(blobs) == old(len(blobs)) + 1 && blobs[len(blobs) - 1] != nil && cast(*fileNode, fileNodes[len(fileNodes) - 1]).path == readObject.Path() && cast(*fileNode, fileNodes[len(fileNodes) - 1]).digest == blobs[len(blobs) - 1].Digest()
+//@   closure 0 ensures failure-adds-nothing: err != nil ==> fileNodes == old(fileNodes) && blobs == old(blobs)
+//@   closure 0 ensures earlier-kept: (forall j int :: 0 <= j && j < old(len(fileNodes)) ==> fileNodes[j] == old(fileNodes)[j]) && (forall j int :: 0 <= j && j < old(len(blobs)) ==> blobs[j] == old(blobs)[j])
+// (the walk helper storage.WalkReadObjects has a plain contract, not an iterator contract, so the per-object facts of
+// closure 0 cannot be accumulated into a statement about the final slices here)
+//
+// Interface contracts of Digest.Type / Digest.Value: *digest is the only implementation of Digest (isDigest is
+// unexported), and its two methods are verified above to return exactly these fields.
+//@ trusted pure func (Digest) Type() (r)
+//@   ensures r == cast(*digest, this).digestType
+//@ trusted pure func (Digest) Value() (r)
+//@   ensures r == cast(*digest, this).value
